@@ -238,6 +238,11 @@ def main():
     f1 = scenrun.evaluate(rep, s1, eval_layout, procs=a.procs)
     s2 = scenrun.enumerate_scenarios(rep, "MC_XParams", cfg_par(rep.tier), f"c17par_{rep.tier}")
     f2 = scenrun.evaluate(rep, s2, eval_param, procs=a.procs)
+
+    def _mut(s):
+        s["verdict"] = "answered" if s["verdict"] == "refused" else "refused"
+        return s
+    scenrun.self_test(rep, s2, eval_param, _mut, "verdict flipped")
     scenrun.report(rep, f1 + f2, TAGS)
     rep.exhaustive = True
     rep.extra["rule"] = "every (layout, transform fault) of XPreproc and every (class family, parameter fault) of XParams within the tier's constants; non-trivial = fault other than none"
